@@ -12,6 +12,10 @@ CLAIMED = {
          "stateless model checking of the real region client: fault-position enumeration x server misbehaviours x all schedules up to a deviation bound (controlled scheduler, virtual time)",
          "For 4 call mixes, every connection-operation index k is faulted in turn (partial writes included), every server misbehaviour is injected at every frame, with/without an external Close(); each unit is explored over all schedules with <=1 (quick) / <=2 (thorough) deviations. Oracle: exactly one completion per live call (lost = caller blocked at quiescence, duplicate = deliverer blocked or result left in the channel), ServerError class, later calls refused at once, reader/writer threads gone.",
          "Atomicity between scheduling points (channel ops, locks, atomics, Once, net.Conn methods); deviation bound; 4 call mixes of <=3 calls.", "DESIGN.md §4 C03"),
+ "C18": ("model_checking",
+         "stateless model checking of the real region client on a virtual clock: all schedules up to 2 deviations x server answer patterns x idle period",
+         "For 5 (thorough 7) call mixes (direct, multi, cancelled in flight) x 4 server answer patterns, every schedule with <=2 deviations is executed on the real region client over a simulated connection whose deadlines live on a virtual clock; then the clock advances 5 read time-outs and one more request is sent. Oracle: something unanswered => the connection fails no later than last send + readTimeout; everything answered => the connection is never torn down and still works.",
+         "Virtual time (timers fire at quiescence); deviation bound 2; executions whose byte stream was corrupted by interleaved senders are left to C05.", "DESIGN.md §4 C18"),
  "C08": ("model_checking",
          "explicit-state breadth-first search over the real location cache, every transition executed on the implementation and judged against an interval model",
          "All 1683 reachable states of a universe of every interval over 3 boundary points x 2 ids (plus a prefix-named table) with put/del of every region as transitions (87k per configuration), repeated with 0..130 filler regions to move entries across B-tree pages; invariant (no two cached regions of a table intersect) in every state, transition relation (evict-all-older / unchanged) on every edge, dead marks, and a differential rebuild from the canonical state.",
@@ -22,7 +26,7 @@ CLAIMED = {
          "Every ordered pair of ~2.6k (quick) / ~10k (thorough) well-formed region names and every triple of a 160-name subset is compared with the real comparator and with a component-wise (table,start,id) oracle; search keys 'table,key,:' are compared against every name. Exhaustive within the stated alphabet and key length, which is where comparator mistakes live (bytes around ',' and unequal lengths).",
          "Scope bound: start keys <=2/<=3 bytes over {00,'+',',','-','a',ff}; well-formed names only.", "DESIGN.md §4 C16"),
 }
-FIX_COMMITS = ["0da2129"]
+FIX_COMMITS = ["0da2129", "62252c5"]
 NA_REASONS = {}
 PENDING_REASON = "check under construction in this revision (planned: see DESIGN.md §4); not claimed until its check is committed"
 
